@@ -53,7 +53,7 @@ type World06 struct {
 }
 
 type Stats06 struct {
-	RealHandshakes, Resumes, Replays, FramesOpenedByRef, LeaseRenewed, LeaseNotRenewed int64
+	RealHandshakes, Resumes, Replays, FramesOpenedByRef, LeaseRenewed, LeaseNotRenewed, RealDeclined int64
 }
 
 func NewWorld06() *World06 {
@@ -106,9 +106,6 @@ func sig06(st *Step, inv string) map[string]string {
 	case "Resume":
 		m["action"] = "Resume"
 		m["variant"] = Variant06Class(st)
-		m["proof"] = st.Proof
-		m["wantReply"] = boolStr(st.Want)
-		m["from"] = st.From
 	case "Replay":
 		m["action"] = "ReplayRecorded"
 		m["dir"] = st.Dir
@@ -277,7 +274,7 @@ func wrongKey(k []byte) []byte {
 type obs06 struct {
 	log      *ConnLog
 	reply    string
-	readable bool   // the requester obtained the server's application message
+	readable bool // the requester obtained the server's application message
 	cli      *ClientResult
 	detail   string
 }
@@ -438,6 +435,16 @@ func (w *World06) resume(i int, st *Step, v Variant06) *Diff {
 	var d *Diff
 	if kind == "real" {
 		o, d = w.realRequester(s, st, v, from)
+		if d == nil && (o.log.Req == nil || !o.log.Req.UseSession) {
+			// cedar's client declined to attempt the resumption (e.g. it does not try
+			// entries without a key): the request variant is then produced by hand.
+			if o.log.Neg != nil && o.log.Neg.SessionId != "" {
+				w.srv.Cache().Invalidate(o.log.Neg.SessionId) // forget the session its full handshake created
+			}
+			w.St.RealDeclined++
+			kind = "hand"
+			o, d = w.handRequester(s, st, v, from)
+		}
 	} else {
 		o, d = w.handRequester(s, st, v, from)
 	}
